@@ -110,7 +110,7 @@ func RunProcessor(c *sim.Ctx) {
 	bufSize := uint64(knob("buffer_bytes_in_events", 1, n+2)) * 200
 	semNum := knob("semaphore_events", 1, 2*n)
 	semSize := uint64(knob("semaphore_bytes_in_events", 1, 2*n)) * 200
-	semTimeout := time.Duration([]int{100, 1000, 5000}[knob("semaphore_timeout", 0, 2)]) * time.Millisecond
+	semTimeout := time.Duration([]int{100, 1000, 5000, 0}[knob("semaphore_timeout", 0, 3)]) * time.Millisecond
 	maxTasks := knob("max_tasks", 1, 6)
 	failProc := map[int]bool{}
 	for j := 0; j < knob("failing_process", 0, 2); j++ {
